@@ -22,7 +22,7 @@ MANIFEST = dict(
     design="5/C04")
 INVS = ["TypeOK", "PokeRejected", "EqExact", "EqTruth", "EqReflexive", "EqTransitive"]
 PROPS = ["Frozen", "DerivedRight"]
-ALL = ["flat", "flat2", "cont", "deep", "nest", "gen", "genraw", "miss"]
+ALL = ["flat", "flat2", "cont", "deep", "nest", "gen", "genraw", "miss", "flag"]
 
 
 class Flat(State):
@@ -59,6 +59,10 @@ class Miss(State):
     n: int = 1
 
 
+class Flag(State):
+    value: bool | int
+
+
 def make(cls, v):
     """-> (instance, external containers or None)"""
     if cls == "flat":
@@ -80,6 +84,8 @@ def make(cls, v):
         return G(v=v), None
     if cls == "miss":
         return Miss(w=MISSING if v == 0 else v), None
+    if cls == "flag":
+        return Flag(value=1 if v == 1 else True), None
     raise ValueError(cls)
 
 
@@ -107,10 +113,14 @@ def value_of(cls, o):
     if cls == "miss":
         ok = o.n == 1 and (("w" not in d) if o.w is MISSING else d.get("w") == o.w)
         return (0 if o.w is MISSING else o.w) if ok else f"odd {d!r}"
+    if cls == "flag":
+        x = o.value
+        return 1 if (type(x) is int and x == 1) else 2 if x is True else f"odd {d!r}"
     raise ValueError(cls)
 
 
-ATTR = {"flat": "a", "flat2": "a", "cont": "xs", "deep": "rows", "nest": "inner", "gen": "v", "genraw": "v", "miss": "w"}
+ATTR = {"flat": "a", "flat2": "a", "cont": "xs", "deep": "rows", "nest": "inner", "gen": "v", "genraw": "v", "miss": "w",
+        "flag": "value"}
 
 
 class HeapDriver:
@@ -156,6 +166,8 @@ class HeapDriver:
             try:
                 if how == "unknown":
                     r = o.updated(zzz_unknown=1)
+                elif how == "invalid_eq":
+                    r = self._invalid_eq(cls, o, cur)
                 elif how == "invalid":
                     r = o.updated(**{ATTR[cls]: object() if cls != "genraw" else object()}) if cls != "genraw" \
                         else o.updated(**{"v": MISSING}).updated(nope=1) if False else self._invalid(cls, o)
@@ -190,7 +202,17 @@ class HeapDriver:
             return o.updated(inner=Flat(a=nv, b="x"))
         if cls in ("gen", "genraw"):
             return o.updated(v=nv)
+        if cls == "flag":
+            return o.updated(value=1 if nv == 1 else True)
         return o.updated(w=MISSING if nv == 0 else nv)
+
+    def _invalid_eq(self, cls, o, cur):
+        """a replacement that compares equal to the current value and does not conform"""
+        if cls == "cont":
+            return o.updated(xs=tuple(float(i) for i in range(1, cur + 1)))
+        if cls == "deep":
+            return o.updated(rows=tuple(tuple(float(i) for i in range(1, cur + 1)) for _ in range(2)))
+        return o.updated(**{ATTR[cls]: float(cur)})
 
     def _invalid(self, cls, o):
         if cls == "genraw":
